@@ -46,8 +46,8 @@ Proof. vm_compute. discriminate. Qed.
 Lemma ex_lookup_ok : lookup_ok ex_lookup.
 Proof. intros r rs H. inversion H. reflexivity. Qed.
 
-Lemma ex_accepted : pub_accepted ex_cfg ex_opts "a.b".
-Proof. split; reflexivity. Qed.
+Lemma ex_accepted : pub_accepted ex_cfg ex_pub ex_opts "a.b".
+Proof. repeat split; reflexivity. Qed.
 
 (** what the example publication delivers: four EVENTs through three
     subscriptions to three sessions, and the acknowledgement *)
@@ -157,6 +157,31 @@ Qed.
 
 Lemma ex_kw_parsed : parse_hquery ex_kw = Some (mkHQ (Some 2) true None None None None "" (Some 105) None None None).
 Proof. vm_compute. reflexivity. Qed.
+
+(** payload passthru mode *)
+Definition ex_ppt_hello : dict :=
+  [("roles", VDict [("publisher", VDict [("features", VDict [("payload_passthru_mode", VBool true)])])])].
+Definition ex_ppt_pub : session := mkSession 10 false ex_ppt_hello [("authid", vstr "pubid")] 0.
+Definition ex_ppt_opts : dict :=
+  [("ppt_scheme", vstr "x_custom"); ("ppt_serializer", vuri "cbor"); ("ppt_keyid", VInt KInt 7); ("exclude_me", VBool false)].
+
+Lemma ex_ppt_accepted : pub_accepted ex_cfg ex_ppt_pub ex_ppt_opts "a.b" /\ ppt_active ex_ppt_opts = true.
+Proof. repeat split; try reflexivity; intros H; discriminate H. Qed.
+
+(** scheme and serializer are copied as strings, the non-string keyid is dropped *)
+Lemma ex_ppt_publish :
+  snd (publish ex_cfg ex_lookup 5 ex_b 100 ex_ppt_pub 7 ex_ppt_opts "a.b" [vnat 1] []) =
+  [(10, REvent 3 101 [("ppt_scheme", vstr "x_custom"); ("ppt_serializer", vstr "cbor")] [vnat 1] []);
+   (11, REvent 3 101 [("ppt_scheme", vstr "x_custom"); ("ppt_serializer", vstr "cbor")] [vnat 1] []);
+   (11, REvent 4 101 [("ppt_scheme", vstr "x_custom"); ("ppt_serializer", vstr "cbor"); ("topic", vuri "a.b")] [vnat 1] []);
+   (12, REvent 5 101 [("ppt_scheme", vstr "x_custom"); ("ppt_serializer", vstr "cbor"); ("topic", vuri "a.b")] [vnat 1] [])].
+Proof. vm_compute. reflexivity. Qed.
+
+(** the same options from a publisher that did not announce the feature *)
+Lemma ex_ppt_violation :
+  valid_uri (c_strict ex_cfg) "" "a.b" = true /\ ppt_active ex_ppt_opts = true /\
+  sess_feature ex_pub "publisher" f_ppt = false.
+Proof. repeat split. Qed.
 
 (** why [1 <= limit] is needed: with limit 0 the ring keeps one entry *)
 Lemma ex_limit0 : forall e, hs_entries (hist_push (mkHStore 0 []) e) = [e].
